@@ -23,6 +23,7 @@ pub mod c14b;
 pub mod c14c;
 pub mod c15;
 pub mod c16;
+pub mod c17;
 pub mod c18;
 pub mod c19;
 pub mod c20;
@@ -46,6 +47,7 @@ pub fn run(prop: &str, report: &Report) -> i32 {
         "C14" => c14::run(report),
         "C15" => c15::run(report),
         "C16" => c16::run(report),
+        "C17" => c17::run(report),
         "C18" => c18::run(report),
         "C19" => c19::run(report),
         "C20" => c20::run(report),
@@ -91,6 +93,7 @@ pub fn replay(f: &Failure) -> i32 {
         "c13" => crate::core::replay_case(f, c13::case),
         "c15-migrate" | "c15-ignore" => crate::core::replay_case(f, c15::case),
         "c16" => crate::core::replay_case(f, c16::case),
+        "c17a" | "c17r" | "c17p" | "c17x" => crate::core::replay_case(f, c17::case),
         "c18" => crate::core::replay_case(f, c18::case),
         "c19" | "c19-enum" => crate::core::replay_case(f, c19::case),
         "c19-fallback" => crate::core::replay_case(f, c19::case_degraded),
